@@ -1346,6 +1346,11 @@ class Interp:
 
     def compare1(self, op, a, b, node=None):
         name = type(op).__name__
+        # int(x) of a symbolic scalar compared with something: the truncation of x
+        if isinstance(a, Opaque) and isinstance(getattr(a, "src", None), E) and a.reason.startswith("int()") and not isinstance(b, Opaque):
+            a = alg.Fn("int", a.src)
+        if isinstance(b, Opaque) and isinstance(getattr(b, "src", None), E) and b.reason.startswith("int()") and not isinstance(a, Opaque):
+            b = alg.Fn("int", b.src)
         if isinstance(a, Opaque) or isinstance(b, Opaque):
             return a if isinstance(a, Opaque) else b
         if name in ("Is", "IsNot") and (isinstance(a, Phi) and b is None or isinstance(b, Phi) and a is None):
